@@ -720,6 +720,7 @@ var errCodes = []struct {
 	{"unknown register family", 20}, {"no allocatable registers", 21}, {"impossible register allocation", 22},
 	{"failed to allocate registers", 23}, {"disagreement on overlapping", 24}, {"non physical register", 25},
 	{"NOFRAME function clobbers", 26}, {"r32 operand should satisfy", 27}, {"missing base register", 30}, {"index register with scale 0", 31},
+	{"label", 5}, // any other complaint about a label
 }
 
 func errCode(err error) int {
